@@ -415,11 +415,11 @@ var sectHistory = ev.Register(&ev.P[sectCase]{
 // 2. concurrent programs
 
 type concCase struct {
-	Procs  int      // GOMAXPROCS
-	Shared int      // year of the shared objects
-	SharedT ref.DT  // moment of the shared Lunar
-	Progs  [][]call // one call list per goroutine
-	Burst  []string // zero-argument Lunar accessors every goroutine calls first on a fresh shared Lunar
+	Procs   int      // GOMAXPROCS
+	Shared  int      // year of the shared objects
+	SharedT ref.DT   // moment of the shared Lunar
+	Progs   [][]call // one call list per goroutine
+	Burst   []string // zero-argument Lunar accessors every goroutine calls first on a fresh shared Lunar
 }
 
 // lunarAccessors lists the exported zero-argument methods of *Lunar (discovered by reflection).
@@ -543,8 +543,8 @@ func runConcurrent(c concCase) error {
 }
 
 var concurrent = ev.Register(&ev.P[concCase]{
-	Name: "concurrent_equals_sequential",
-	Rule: "generated concurrent programs: 2..16 goroutines, each a generated list of calls over overlapping years (the one-slot cache thrashes), with read-only accessor bursts on a Lunar/Solar/LunarYear/LunarMonth shared by all goroutines (first-use lazy paths included), GOMAXPROCS in {1,2,16}, Gosched sprinkled; oracle: every goroutine's results equal the sequential reference and the lock is free afterwards; the same generated programs are re-run by a child process built with -race, which must report no data race, and a child that dies with the runtime's 'all goroutines are asleep' is a violation (a child timeout is inconclusive, never a violation); non-trivial: >= 2 goroutines touch different years",
+	Name:  "concurrent_equals_sequential",
+	Rule:  "generated concurrent programs: 2..16 goroutines, each a generated list of calls over overlapping years (the one-slot cache thrashes), with read-only accessor bursts on a Lunar/Solar/LunarYear/LunarMonth shared by all goroutines (first-use lazy paths included), GOMAXPROCS in {1,2,16}, Gosched sprinkled; oracle: every goroutine's results equal the sequential reference and the lock is free afterwards; the same generated programs are re-run by a child process built with -race, which must report no data race, and a child that dies with the runtime's 'all goroutines are asleep' is a violation (a child timeout is inconclusive, never a violation); non-trivial: >= 2 goroutines touch different years",
 	Check: runConcurrent,
 	Class: func(c concCase) ([]string, bool) {
 		ys := map[int]bool{}
